@@ -226,7 +226,7 @@ func (r *Runner) RunCheck(ck *Check, tier string, seed int, filter string) int {
 		rpath := filepath.Join(replayDir, name)
 		b, _ := json.MarshalIndent(rf, "", " ")
 		os.WriteFile(rpath, b, 0o644)
-		outcome, out, err := Replay(rf, rpath, 40, filepath.Join(workDir, "replay"))
+		outcome, out, err := Replay(rf, rpath, 20000, filepath.Join(workDir, "replay"))
 		replays++
 		if err != nil {
 			inconclusive = append(inconclusive, fmt.Sprintf("%s: replay failed: %v\n%s", p.c.Key(), err, tail(out, 30)))
